@@ -351,6 +351,8 @@ def run_case(case: dict) -> list:
                 plain = sorted({tuple(f["path"][:k]) for f in p["files"] for k in range(1, len(f["path"]))
                                 if all(a["cls"] == "plain" and not a["symlink"] and not a.get("submodule") for a in f["anc"][:k])
                                 and not any(x in ("ignoreddir", "untrackeddir", "submodule", "symlinkdir") for x in f.get("ctx", [])[:k])})
+                # (a directory that holds a file called `.git` is no place to ask Git anything: Git itself fails there)
+                plain = [d_ for d_ in plain if not any(f["ncls"] == "git-file" and tuple(f["path"][:len(d_)]) == d_ for f in p["files"])]
                 if not plain:
                     continue
                 # prefer a directory below which Git ignores something while something else is tracked
